@@ -75,6 +75,9 @@ func scenarios() []*sess.Scenario {
 					w.Srv.Queue = append(w.Srv.Queue, &rpcsrv.Out{Body: (&tlw.W{}).U32(0xa7eff811).I64(int64(1599999000) << 32).I32(1).I32(code).B, Content: false, Label: fmt.Sprintf("bad_msg_notification(%d)", code), Kind: -1})
 				}
 			}},
+		// the keep-alive timer fires at a moment the explorer chooses (and the clock jumps by the timer's period):
+		// the ping of the pinging goroutine is one more message of the stream, its pong one more to acknowledge
+		{Name: "P1-keepalive-ping-among-callers", Salt: 5, Opt: all, Ticks: 1, Callers: [][]sess.Call{{obj(1), obj(3)}, {obj(2)}}},
 		// content-related messages whose processing fails (result for an unknown request) are still received
 		// messages: they, and what follows them in a container, must be acknowledged
 		{Name: "A3-unprocessable-among-updates", Salt: 5, Opt: all, Handler: true, Callers: [][]sess.Call{{obj(1)}},
